@@ -137,8 +137,18 @@ func c12Ordering(x *X) {
 	var sb strings.Builder
 	ndefs, uses := 0, 0
 	useIsImage := false
+	// The first definition (the one that must win) is also spelled with an empty
+	// destination and no title, and with an empty destination and an empty title:
+	// "already defined" must not be decided from the definition's value.
+	firstStyle := x.ChooseFree(3)
 	def := func(l string) string {
 		ndefs++
+		if ndefs == 1 && firstStyle == 1 {
+			return fmt.Sprintf("[%s]: <>", l)
+		}
+		if ndefs == 1 && firstStyle == 2 {
+			return fmt.Sprintf("[%s]: <> ''", l)
+		}
 		return fmt.Sprintf("[%s]: /d%d 't%d'", l, ndefs, ndefs)
 	}
 	nseg, nested := 0, 0
@@ -201,17 +211,28 @@ func c12Ordering(x *X) {
 	blocks, refs := cm.Parse(clone(in))
 	out, _ := renderHTML(&cm.HTMLRenderer{ReferenceMap: refs}, blocks)
 	x.Validated()
-	wantTag := `<a href="/d1" title="t1">`
+	wantDest, wantTitle, wantTP := "/d1", "t1", true
+	switch firstStyle {
+	case 1:
+		wantDest, wantTitle, wantTP = "", "", false
+	case 2:
+		wantDest, wantTitle, wantTP = "", "", true
+	}
+	attrs := fmt.Sprintf(`="%s"`, wantDest)
+	if wantTP {
+		attrs += fmt.Sprintf(` title="%s"`, wantTitle)
+	}
+	wantTag := `<a href` + attrs + `>`
 	if useIsImage {
-		wantTag = `<img src="/d1" title="t1"`
+		wantTag = `<img src` + attrs + ` alt=`
 	}
 	if !strings.Contains(out, wantTag) {
-		x.Fail("first-definition-wins", "", in, "the use must resolve to the first definition in source order (/d1, t1); rendered %q", out)
+		x.Fail("first-definition-wins", "", in, "the use must resolve to the first definition in source order (%q, title %q present=%v); rendered %q", wantDest, wantTitle, wantTP, out)
 		return
 	}
 	key, _ := ref.NormLabel(lab)
-	if d, ok := refs[key]; !ok || d.Destination != "/d1" || d.Title != "t1" || !d.TitlePresent || len(refs) != 1 {
-		x.Fail("map-first-definition", "", in, "reference map %v: want exactly %q -> /d1 't1'", refs, key)
+	if d, ok := refs[key]; !ok || d.Destination != wantDest || d.Title != wantTitle || d.TitlePresent != wantTP || len(refs) != 1 {
+		x.Fail("map-first-definition", "", in, "reference map %v: want exactly %q -> %q title %q (present=%v)", refs, key, wantDest, wantTitle, wantTP)
 		return
 	}
 	if ndefs >= 2 {
